@@ -121,6 +121,28 @@ def _returned_and_merged(ctx, f_, h):
     return True
 
 
+def _transferred_after(f_, t_, h):
+    """The handler binds e.removed_nodes and e.edges to locals (`a, b = e.removed_nodes, e.edges`) and, after the try
+    statement, both locals are merged into sets (`x |= a` / `x.update(a)`): the try only computes what is merged."""
+    bound = {}
+    for a in h.body:
+        if not isinstance(a, ast.Assign) or len(a.targets) != 1:
+            continue
+        tg, val = a.targets[0], a.value
+        pairs = list(zip(tg.elts, val.elts)) if isinstance(tg, ast.Tuple) and isinstance(val, ast.Tuple) and \
+            len(tg.elts) == len(val.elts) else [(tg, val)]
+        for t1, v1 in pairs:
+            if isinstance(t1, ast.Name) and norm(v1) in (f'{h.name}.removed_nodes', f'{h.name}.edges'):
+                bound[norm(v1)] = t1.id
+    if len(bound) != 2:
+        return False
+    end = max(getattr(x, 'end_lineno', x.lineno) for x in ast.walk(t_) if hasattr(x, 'lineno'))
+    merged = {norm(a.value) for a in walk_fn(f_) if isinstance(a, ast.AugAssign) and isinstance(a.op, ast.BitOr) and
+              a.lineno > end} | \
+        {norm(x.args[0]) for x in calls(f_, 'update') if x.args and x.lineno > end}
+    return all(nm in merged for nm in bound.values())
+
+
 def handlers(ctx, rule='A9e'):
     n = 0
     for fn in ctx.prog.all_functions():
@@ -140,7 +162,8 @@ def handlers(ctx, rule='A9e'):
                         detail = f'the tabled handler is no longer a bare pass: {body[:80]}'
                 elif h.name and f'{h.name}.removed_nodes' in body and f'{h.name}.edges' in body:
                     # accumulated into the modification here, or handed back to the caller (a helper wrapping the call)
-                    ok = '|=' in body or '.update(' in body or _returned_and_merged(ctx, fn, h)
+                    ok = '|=' in body or '.update(' in body or _returned_and_merged(ctx, fn, h) or \
+                        _transferred_after(fn, t, h)
                     detail = 'transfers e.removed_nodes and e.edges into the modification'
                 elif 'False' in body and ('is_feasible' in body or 'feasible' in body):
                     ok = True
@@ -161,7 +184,8 @@ def handlers(ctx, rule='A9e'):
                 if 'IncompatibilityError' in handler_type_names(h) and h.name:
                     body = ' '.join(norm(x) for x in h.body)
                     if f'{h.name}.edges' in body and f'{h.name}.removed_nodes' in body and \
-                            ('|=' in body or '.update(' in body or _returned_and_merged(ctx, f_, h)):
+                            ('|=' in body or '.update(' in body or _returned_and_merged(ctx, f_, h) or
+                             _transferred_after(f_, t_, h)):
                         ok = True
     ctx.ob(rule, fkey(fn, rule, 'conflict-becomes-marker-edges'), ok, fn.where,
            'on a conflict while applying a choice the conflicting edges are *added* to the derived graph (they '
